@@ -335,62 +335,71 @@ Fixpoint parse_predicates (pe : list ttree -> pres expr) (tokens : list ttree) {
         end
   end.
 
+(* the four sections of parse_location_step, in the order of the source *)
+(* axis *)
+Definition step_axis (tokens0 : list ttree) : pres (axis * list ttree) :=
+  if initial_tokens_match tokens0 [S_ NAME; S_ AXIS_SEPARATOR] then
+    t0 <- nth_tok tokens0 0 ;;
+    ax <- at_position (t_pos t0) (axis_ctor (t_str t0)) ;;
+    POk (ax, skipn 2 tokens0)
+  else ax <- axis_ctor s_child ;; POk (ax, tokens0).
+
+(* if not tokens: last_token = all_tokens[-1]; ...; raise "Missing node test." *)
+Definition step_missing_test (all_tokens : list ttree) : pres step :=
+  match last (map Some all_tokens) None with
+  | None => PCrash S_step_all_tokens_last
+  | Some (TG _) => PCrash S_step_last_not_token
+  | Some (TT last_token) =>
+      PRej (mkXpe (Some (t_pos last_token + length (t_str last_token))) msg_parse_location_step_0 false)
+  end.
+
+(* name test's prefix *)
+Definition step_prefix (tokens1 : list ttree) : pres (option str * list ttree) :=
+  if initial_tokens_match tokens1 [S_ NAME; S_ COLON; S_ NAME]
+     || initial_tokens_match tokens1 [S_ NAME; S_ COLON; S_ ASTERISK] then
+    t0 <- nth_tok tokens1 0 ;; POk (Some (t_str t0), skipn 2 tokens1)
+  else POk (None, tokens1).
+
+(* node test *)
+Definition step_node_test (prefix : option str) (tokens2 : list ttree) : pres (node_test * list ttree) :=
+  if initial_tokens_match tokens2 [S_ NAME; S_ OPEN_PARENS; None; S_ CLOSE_PARENS] then
+    t0 <- nth_tok tokens2 0 ;;
+    if negb (str_eqb (t_str t0) pi_test_name) then PCrash S_step_pi_name else
+    g <- nth_group tokens2 2 ;;
+    match g with
+    | [] => PCrash S_step_pi_arg_index
+    | TG _ :: _ => PCrash S_step_pi_arg_not_token
+    | TT target_name :: _ =>
+        POk (ProcessingInstructionTest (py_strip_ends (t_str target_name)), skipn 4 tokens2)
+    end
+  else if initial_tokens_match tokens2 [S_ NAME; S_ OPEN_PARENS; S_ CLOSE_PARENS] then
+    t0 <- nth_tok tokens2 0 ;;
+    match node_type_lookup (t_str t0) with
+    | None => PCrash S_step_node_type
+    | Some k => POk (NodeTypeTest k, skipn 3 tokens2)
+    end
+  else if initial_tokens_match tokens2 [S_ ASTERISK] then POk (AnyNameTest prefix, skipn 1 tokens2)
+  else if initial_tokens_match tokens2 [S_ NAME] then
+    t0 <- nth_tok tokens2 0 ;; POk (NameMatchTest prefix (t_str t0), skipn 1 tokens2)
+  else if initial_tokens_match tokens2 [S_ STRUDEL; S_ NAME] then
+    t0 <- nth_tok tokens2 0 ;;
+    PRej (mkXpe (Some (t_pos t0)) (msg_unsupported msg_parse_location_step_1) true)
+  else
+    match tokens2 with
+    | [] => PCrash S_step_test_index
+    | TG _ :: _ => PCrash S_step_test_not_token
+    | TT t0 :: _ => PRej (mkXpe (Some (t_pos t0)) msg_parse_location_step_2 false)
+    end.
+
 Definition parse_location_step (pe : list ttree -> pres expr) (tokens0 : list ttree) : pres step :=
   let all_tokens := tokens0 in
-  (* axis *)
-  at1 <- (if initial_tokens_match tokens0 [S_ NAME; S_ AXIS_SEPARATOR] then
-            t0 <- nth_tok tokens0 0 ;;
-            ax <- at_position (t_pos t0) (axis_ctor (t_str t0)) ;;
-            POk (ax, skipn 2 tokens0)
-          else ax <- axis_ctor s_child ;; POk (ax, tokens0)) ;;
-  let ax := fst at1 in
-  let tokens1 := snd at1 in
-  if null tokens1 then
-    match last (map Some all_tokens) None with
-    | None => PCrash S_step_all_tokens_last
-    | Some (TG _) => PCrash S_step_last_not_token
-    | Some (TT last_token) =>
-        PRej (mkXpe (Some (t_pos last_token + length (t_str last_token))) msg_parse_location_step_0 false)
-    end
+  at1 <- step_axis tokens0 ;;
+  if null (snd at1) then step_missing_test all_tokens
   else
-  (* name test's prefix *)
-  pt <- (if initial_tokens_match tokens1 [S_ NAME; S_ COLON; S_ NAME]
-            || initial_tokens_match tokens1 [S_ NAME; S_ COLON; S_ ASTERISK] then
-           t0 <- nth_tok tokens1 0 ;; POk (Some (t_str t0), skipn 2 tokens1)
-         else POk (None, tokens1)) ;;
-  let prefix := fst pt in
-  let tokens2 := snd pt in
-  (* node test *)
-  nt <- (if initial_tokens_match tokens2 [S_ NAME; S_ OPEN_PARENS; None; S_ CLOSE_PARENS] then
-           t0 <- nth_tok tokens2 0 ;;
-           if negb (str_eqb (t_str t0) pi_test_name) then PCrash S_step_pi_name else
-           g <- nth_group tokens2 2 ;;
-           match g with
-           | [] => PCrash S_step_pi_arg_index
-           | TG _ :: _ => PCrash S_step_pi_arg_not_token
-           | TT target_name :: _ =>
-               POk (ProcessingInstructionTest (py_strip_ends (t_str target_name)), skipn 4 tokens2)
-           end
-         else if initial_tokens_match tokens2 [S_ NAME; S_ OPEN_PARENS; S_ CLOSE_PARENS] then
-           t0 <- nth_tok tokens2 0 ;;
-           match node_type_lookup (t_str t0) with
-           | None => PCrash S_step_node_type
-           | Some k => POk (NodeTypeTest k, skipn 3 tokens2)
-           end
-         else if initial_tokens_match tokens2 [S_ ASTERISK] then POk (AnyNameTest prefix, skipn 1 tokens2)
-         else if initial_tokens_match tokens2 [S_ NAME] then
-           t0 <- nth_tok tokens2 0 ;; POk (NameMatchTest prefix (t_str t0), skipn 1 tokens2)
-         else if initial_tokens_match tokens2 [S_ STRUDEL; S_ NAME] then
-           t0 <- nth_tok tokens2 0 ;;
-           PRej (mkXpe (Some (t_pos t0)) (msg_unsupported msg_parse_location_step_1) true)
-         else
-           match tokens2 with
-           | [] => PCrash S_step_test_index
-           | TG _ :: _ => PCrash S_step_test_not_token
-           | TT t0 :: _ => PRej (mkXpe (Some (t_pos t0)) msg_parse_location_step_2 false)
-           end) ;;
-  predicates <- parse_predicates pe (snd nt) ;;
-  POk (LocationStep ax (fst nt) predicates).
+    pt <- step_prefix (snd at1) ;;
+    nt <- step_node_test (fst pt) (snd pt) ;;
+    predicates <- parse_predicates pe (snd nt) ;;      (* predicates *)
+    POk (LocationStep (fst at1) (fst nt) predicates).
 
 (* ---- parse_location_path, parse -------------------------------------------------------------- *)
 Definition parse_location_path (pe : list ttree -> pres expr) (tokens : list ttree) : pres path :=
